@@ -22,6 +22,7 @@ type Reply struct {
 	QCsum   string            `json:"qcsum"`    // "" fix | "zero" | "keep"
 	QTOS    int               `json:"qtos"`     // 0 keep, else rewritten
 	Mods    map[string]int64  `json:"mods"`     // numeric perturbations (set value)
+	ModsD   map[string]int64  `json:"mods_d"`   // numeric perturbations (delta on the genuine value)
 	ModsS   map[string]string `json:"mods_s"`   // address perturbations
 	Extra   []int             `json:"extra"`    // sack: further TTLs whose blocks are also reported
 	Desc    bool              `json:"desc"`     // sack: list blocks in descending order
@@ -50,6 +51,9 @@ func mustAddr(s string) netip.Addr {
 func (r Reply) mod(k string, def int64) int64 {
 	if v, ok := r.Mods[k]; ok {
 		return v
+	}
+	if v, ok := r.ModsD[k]; ok {
+		return def + v
 	}
 	return def
 }
@@ -185,19 +189,17 @@ func (r Reply) Encode(probe []byte, fl Flow) ([]byte, error) {
 					}
 				}
 				opt := []byte{1, 1, 5, byte(2 + 8*len(ttls))}
-				for i, tt := range ttls {
+				for _, tt := range ttls {
 					left := fl.LocalISN + uint32(tt)
-					if i == 0 || r.Desc && i == len(ttls)-1 {
-						_ = i
-					}
 					e := make([]byte, 8)
 					be.PutUint32(e[0:4], left)
 					be.PutUint32(e[4:8], left+1)
 					opt = append(opt, e...)
 				}
-				if v, ok := r.Mods["sack_left"]; ok { // overwrite the first block's edges
-					be.PutUint32(opt[4:8], uint32(v))
-					be.PutUint32(opt[8:12], uint32(v)+1)
+				if _, ok := r.ModsD["sack_left"]; ok || r.Mods["sack_left"] != 0 { // move the first block
+					v := uint32(r.mod("sack_left", int64(be.Uint32(opt[4:8]))))
+					be.PutUint32(opt[4:8], v)
+					be.PutUint32(opt[8:12], v+1)
 				}
 				t.Options = opt
 			}
@@ -231,13 +233,13 @@ func (r Reply) buildQuote(pip pkt.IP, ppl []byte) []byte {
 	qip.ID = uint16(r.mod("q_ipid", int64(pip.ID)))
 	qip.Proto = uint8(r.mod("q_proto", int64(pip.Proto)))
 	put16 := func(off int, k string) {
-		if v, ok := r.Mods[k]; ok && len(l4) >= off+2 {
-			be.PutUint16(l4[off:], uint16(v))
+		if len(l4) >= off+2 {
+			be.PutUint16(l4[off:], uint16(r.mod(k, int64(be.Uint16(l4[off:])))))
 		}
 	}
 	put32 := func(off int, k string) {
-		if v, ok := r.Mods[k]; ok && len(l4) >= off+4 {
-			be.PutUint32(l4[off:], uint32(v))
+		if len(l4) >= off+4 {
+			be.PutUint32(l4[off:], uint32(r.mod(k, int64(be.Uint32(l4[off:])))))
 		}
 	}
 	switch pip.Proto {
@@ -267,9 +269,7 @@ func (r Reply) buildQuote(pip pkt.IP, ppl []byte) []byte {
 	// serialise the quoted header with the ORIGINAL stated length (not the truncated one)
 	full := pkt.BuildIP(qip, l4)
 	if pip.V6 {
-		if v, ok := r.Mods["q_ulen"]; ok {
-			be.PutUint16(full[4:6], uint16(v))
-		}
+		be.PutUint16(full[4:6], uint16(r.mod("q_ulen", int64(be.Uint16(full[4:6])))))
 	} else {
 		switch r.QCsum {
 		case "zero":
